@@ -104,6 +104,13 @@ impl FileWithHeader {
         file.read_exact(&mut header)?;
         let header_len =
             header_len as usize + LINE_ENDS.len() + mem::size_of_val(&header_len);
+        if metadata.len() < header_len as u64 {
+            // torn inside the header, the length of the data would underflow
+            return Err(OpenError::Io(io::Error::new(
+                io::ErrorKind::UnexpectedEof,
+                "file is shorter than its header",
+            )));
+        }
 
         tracing::Span::current()
             .record("file_len", metadata.len())
